@@ -63,6 +63,27 @@ func runAll(rep *explore.Report, prop, tier string, sweeps bool) {
 	// smallest settings first, so that a budget overrun cuts the largest ones
 	sort.SliceStable(all, func(i, j int) bool { return all[i].Max*all[i].R < all[j].Max*all[j].R })
 	done := 0
+	// first, alone in the process and on one worker: small settings with a second tournament (its own
+	// regulator) living beside the one under test
+	before := rep.ViolationCount()
+	for _, s := range []Setting{
+		{Max: 2, Min: 2, Mode: "atomic", R: 6, MaxOut: 2, MaxTable: 4, Dev: 0, Beside: true},
+		{Max: 3, Min: 2, Mode: "deferred", R: 7, MaxOut: 2, MaxTable: 4, Dev: 0, Beside: true},
+	} {
+		if sweeps && s.Mode != "atomic" {
+			continue
+		}
+		e := &Explorer{Prop: prop, Rep: rep, S: s, Deadline: deadline, Workers: 1}
+		e.Run()
+		if sweeps && !e.capped {
+			e.Sweeps(4)
+		}
+		rep.Add("settings_with_a_second_tournament_in_process", 1)
+	}
+	if rep.ViolationCount() > before {
+		rep.Cap("the exploration beside a second tournament violated the property: the rest of the check was skipped")
+		return
+	}
 	for _, s := range all {
 		if sweeps && s.Mode != "atomic" {
 			continue
